@@ -97,6 +97,18 @@ class ExprMixin:
             obs.append(ob)
         return "[" + "; ".join(items) + "]", conj(obs)
 
+    def zip_default(self, zc, env):
+        from ptypes import coq_default
+        comps = sorted((v for v in env.values() if isinstance(v, ZipComp) and v.lvar == zc.lvar),
+                       key=lambda c: c.idx)
+        seen = {}
+        for c in comps:
+            seen[c.idx] = c.ty
+        if len(seen) != zc.n:
+            self.err(None, "internal: incomplete parallel-loop result")
+        items = [coq_default(seen[k]) for k in range(zc.n)]
+        return items[0] if zc.n == 1 else "(" + ", ".join(items) + ")"
+
     def dflt_of(self, elt):
         return {INT: "0", FLT: "(nofZ 0)", BOOL: "false"}[elt]
 
@@ -106,6 +118,19 @@ class ExprMixin:
         nm = e.value.id
         aty = env.get(nm)
         a = mangle(nm)
+        if isinstance(aty, ZipComp):
+            # component of item i of a parallel loop's result
+            idx = self.index_list(e)
+            if len(idx) != 1:
+                self.err(e, "a parallel loop's result takes one index")
+            t, ty, ob = self.ex(idx[0], env)
+            if ty != INT:
+                self.err(e, "index must be an integer")
+            from ptypes import coq_default
+            ity = Tup([None] * aty.n)
+            item = f"(nth (Z.to_nat {t}) {aty.lvar} {self.zip_default(aty, env)})"
+            return (proj(aty.idx, aty.n, item), aty.ty,
+                    conj([ob, f"obI wI ((0 <=? {t}) && ({t} <? Z.of_nat (length {aty.lvar})))"]))
         if not isinstance(aty, Arr):
             self.err(e, f"subscript of {nm} : {aty}")
         idx = self.index_list(e)
